@@ -208,12 +208,18 @@ class Interp:
     # -- driving ---------------------------------------------------------------------------
     def paths(self, fn, args=None, this=None, limit=400):
         """Enumerate all paths of fn under the free Boolean oracle (or the given oracle)."""
+        return self.paths_of(lambda: self.call_function(fn, args, this), limit, fn["qn"])
+
+    def paths_lambda(self, closure, op, args, limit=400):
+        return self.paths_of(lambda: self.apply_lambda_op(closure, op, args), limit, "lambda")
+
+    def paths_of(self, thunk, limit=400, what=""):
         out = []
         stack = [[]]
         while stack:
             pre = stack.pop()
             if len(out) >= limit:
-                raise Unsupported("more than %d paths in %s" % (limit, fn["qn"]))
+                raise Unsupported("more than %d paths in %s" % (limit, what))
             p = Path()
             self.path = p
             self.pre = list(pre)
@@ -221,7 +227,7 @@ class Interp:
             self.depth = 0
             self.steps = 0
             try:
-                v = self.call_function(fn, args, this)
+                v = thunk()
                 p.outcome = ("return", v)
             except _Throw as t:
                 p.outcome = ("throw", t.ty)
